@@ -600,5 +600,54 @@ func k7() *sched.Scenario {
 }
 
 func TestC12Sched(t *testing.T) { run(t, "C12", k1(), k1b(), k6(), k7()) }
-func TestC13Sched(t *testing.T) { run(t, "C13", k2(), k3(), k5()) }
-func TestC18Client(t *testing.T) { run(t, "C18", k1(), k1b(), k2(), k3(), k5(), k6(), k7()) }
+// k8: two goroutines close the relayed socket at the same time (the library
+// itself is the second closer when a ChannelBind is refused): both calls
+// return, exactly one of them without error, nothing panics.
+func k8() *sched.Scenario {
+	return &sched.Scenario{Name: "K8-two-closers-of-the-relayed-socket", Bound: bound() - 1, FreeBound: 1, Opt: opt,
+		Body: func(*vsched.Sched) (func() []string, func()) {
+			w := newCWorld(100 * time.Millisecond)
+			var nt notes
+			vsched.Go("server", w.autoServer)
+			vsched.Go("app", func() {
+				conn, err := w.cl.Allocate()
+				if err != nil {
+					nt.set("alloc", "failed:"+err.Error())
+
+					return
+				}
+				nt.set("alloc", "ok")
+				w.relayed = conn
+				vsched.Mark()
+				for _, name := range []string{"closer1", "closer2"} {
+					vsched.Go(name, func() {
+						if err := conn.Close(); err != nil {
+							nt.set(name, "error")
+						} else {
+							nt.set(name, "nil")
+						}
+					})
+				}
+			})
+
+			return func() []string {
+				if nt.get("alloc") != "ok" {
+					return []string{"c13:allocate-failed:" + nt.get("alloc")}
+				}
+				a, b := nt.get("closer1"), nt.get("closer2")
+				switch {
+				case a == "" || b == "":
+					return []string{"c13:close-never-returned"}
+				case a == "nil" && b == "nil":
+					return []string{"c13:both-concurrent-closes-report-success"}
+				case a == "error" && b == "error":
+					return []string{"c13:both-concurrent-closes-report-an-error"}
+				}
+
+				return nil
+			}, w.teardown
+		}}
+}
+
+func TestC13Sched(t *testing.T) { run(t, "C13", k2(), k3(), k5(), k8()) }
+func TestC18Client(t *testing.T) { run(t, "C18", k1(), k1b(), k2(), k3(), k5(), k6(), k7(), k8()) }
